@@ -166,6 +166,79 @@ def rnd_bundle(rng, nblocks=None, crc_kind=None, fragment=None, ordered=True):
     return dict(p=p, cs=cs)
 
 
+def reorder(rng, b, free=False):
+    """vary the ORDER / numbering of the extension blocks of a generated bundle (the library's own builders always produce
+    descending block numbers, peers do not): keeps the payload block last with number 1 and the numbers distinct unless
+    `free` (then, rarely, the payload moves or a number repeats -- still inside the codec theorems' domain, outside validate's)"""
+    ext, pay = b["cs"][:-1], b["cs"][-1:]
+    n = len(ext)
+    if n == 0:
+        return b
+    r = rng.random()
+    if r < 0.45:
+        return b                                            # descending, as built by the library
+    if r < 0.65:
+        nums = list(range(2, n + 2))                        # ascending: 2, 3, 4, .., payload 1
+    elif r < 0.85:
+        nums = list(range(2, n + 2))
+        rng.shuffle(nums)
+    else:
+        nums = []
+        while len(nums) < n:
+            v = rng.choice([rnd_u64(rng), rng.randrange(2, 300)])
+            if v >= 2 and v not in nums:
+                nums.append(v)
+    for c, v in zip(ext, nums):
+        c["num"] = v
+    if free and rng.random() < 0.1:
+        k = rng.randrange(3)
+        if k == 0:
+            cs = ext + pay
+            rng.shuffle(cs)
+            b["cs"] = cs
+            return b
+        if k == 1:
+            ext[rng.randrange(n)]["num"] = rng.choice([0, 1, ext[0]["num"]])
+    b["cs"] = ext + pay
+    return b
+
+
+_ZERO_PRIMARY = dict(ver=7, flags=0, crc=("E16",), dst=("DTN", 1, b"//node2/in"), src=("DTN", 1, b"//node1/out"), rpt=("NONE", 1, 0),
+                     t=1000, seq=6976, life=3600000, foff=0, flen=0)
+_ZERO_BLOCKS = [dict(type=1, num=1, flags=0, crc=("E16",), data=("DATA", bytes.fromhex("00f9ec"))),
+                dict(type=1, num=1, flags=1, crc=("E16",), data=("DATA", bytes.fromhex("0042f0"))),
+                dict(type=1, num=1, flags=4, crc=("E16",), data=("DATA", bytes.fromhex("00159e"))),
+                dict(type=7, num=2, flags=0, crc=("E16",), data=("AGE", 36708)),
+                dict(type=10, num=3, flags=0, crc=("E16",), data=("HOP", 120, 182)),
+                dict(type=10, num=3, flags=0, crc=("E16",), data=("HOP", 233, 51))]
+
+
+def zero_crc_bundles():
+    """bundles in which the CORRECT CRC-16 of some block is exactly 0x0000 (1 block in 65536: random generation never gets there;
+    the value coincides with the all-zero placeholder of a CRC that was never calculated).  Witnesses were found by search with
+    the reference encoder and are re-verified here; one that no longer verifies is dropped, never trusted."""
+    prim = dict(_ZERO_PRIMARY)
+    blocks = [dict(c) for c in _ZERO_BLOCKS if ref_canonical(c)[1] == b"\x00\x00"]
+    prim_ok = ref_primary(prim)[1] == b"\x00\x00"
+    plain_p = dict(prim, crc=("N",), seq=1)
+    plain_pay = dict(type=1, num=1, flags=0, crc=("N",), data=("DATA", b"abc"))
+    out = []
+    pays = [c for c in blocks if c["type"] == 1]
+    exts = [c for c in blocks if c["type"] != 1]
+    for state in (("E16",), ("V16", b"\x00\x00"), ("V16", b"\x12\x34")):
+        for pay in pays:
+            out.append(dict(p=dict(plain_p), cs=[dict(pay, crc=state)]))                       # only the payload block has a CRC (= 0)
+        for e in exts:
+            out.append(dict(p=dict(plain_p), cs=[dict(e, crc=state), dict(plain_pay)]))         # extension block with CRC 0, payload without
+            if pays:
+                out.append(dict(p=dict(plain_p, crc=("E32",)), cs=[dict(e, crc=state), dict(pays[0], crc=state)]))
+        if prim_ok:
+            out.append(dict(p=dict(prim, crc=state), cs=[dict(plain_pay)]))                      # primary block with CRC 0
+            if pays:
+                out.append(dict(p=dict(prim, crc=state), cs=[dict(pays[0], crc=state)]))
+    return out
+
+
 # ------------------------------------------------------------------ case-line rendering ---------------
 
 def show_crc(c):
